@@ -456,14 +456,10 @@ LPpStep(p) == PpStep(p) /\ Log([a |-> "ppstep", part |-> p, op |-> Head(pp[p].to
 BpRecvRolls(i) == LET m == bps[i].in[1] B == bps[i] IN
                   /\ m.flag # "syn" /\ ~(B.closing \/ B.cur[m.part])
                   /\ Idem /\ B.bepoch # m.ep /\ ~BufEmpty(B.buffer)
-\* rollempty: same with an EMPTY buffer. The model only adopts the new epoch; the code hands the empty buffer to the bridge all the
-\* same (waitForSpace with forceRollover), i.e. an empty produce request goes to the broker (harmless, not modelled): the conductor
-\* is told so that it can let that request through
-BpRecvRollsEmpty(i) == LET m == bps[i].in[1] B == bps[i] IN
-                  /\ m.flag # "syn" /\ ~(B.closing \/ B.cur[m.part])
-                  /\ Idem /\ B.bepoch # m.ep /\ BufEmpty(B.buffer)
+\* (with an EMPTY buffer the model only adopts the new epoch; the code hands the empty buffer to the bridge all the same -
+\* waitForSpace with forceRollover - so an empty produce request makes a round trip to the broker: harmless, not modelled,
+\* and let through by the conductor without a step of its own)
 LBpRecv(i) == BpRecv(i) /\ Log(MsgRec("bprecv", bps[i].in[1]) @@ [bp |-> i, broker |-> bps[i].broker, roll |-> BpRecvRolls(i),
-                                    rollempty |-> BpRecvRollsEmpty(i), busy |-> bps[i].out.busy,
                                     ids |-> [p \in Parts |-> Ids(bps[i].buffer[p])]])
 LBpSend(i) == BpSend(i) /\ Log([a |-> "bpsend", bp |-> i, broker |-> bps[i].broker, ids |-> [p \in Parts |-> Ids(bps[i].buffer[p])]])
 LBrokerHandle(i) == BrokerHandle(i) /\ Log([a |-> "handle", bp |-> i, broker |-> bps[i].broker, conn |-> LastHist.conn,
